@@ -41,9 +41,32 @@ Proof.
         pose proof (maint_run_wf _ _ _ _ _ _ _ _ _ W M) as W1; [inversion R; subst; exact W1|apply (IH _ _ _ _ _ _ _ W1 R)].
 Qed.
 
+Lemma walk_plan_add_wf p H H' e : wfH H -> walk_plan p false H = (H', e) -> wfH H'.
+Proof.
+  intros [P U] W. destruct p as [es sf]. unfold walk_plan in W.
+  destruct (exec_add es H []) as (H1 & E1 & C1 & P1). rewrite E1 in W. cbn [app] in W.
+  pose proof (exec_uniq _ _ _ _ _ _ _ U E1) as U1. destruct sf.
+  - destruct (undo_restores false es H1 (P1 P)) as (H2 & X & P2 & _).
+    { intros _ o c. rewrite C1. lia. }
+    rewrite X in W. inversion W; subst. split; [exact P2|apply (undo_uniq _ _ _ _ _ U1 X)].
+  - inversion W; subst. split; [apply P1, P|exact U1].
+Qed.
+Lemma run_ta_notifiers_wf h s x f : forall ns H calls H' calls' e, wfH H ->
+  run_ta_notifiers h s x f ns H calls = (H', calls', e) -> wfH H'.
+Proof.
+  induction ns as [|n r IH]; intros H calls H' calls' e W R; cbn [run_ta_notifiers] in R.
+  - inversion R; subst. exact W.
+  - destruct n as [k rc|m g k|i]; try (apply (IH _ _ _ _ _ W R)).
+    destruct m; try (apply (IH _ _ _ _ _ W R)).
+    destruct g as [[f' nt opt|c nt opt] cs]; try (apply (IH _ _ _ _ _ W R)).
+    destruct (alive s k && Nat.eqb f' f); [|apply (IH _ _ _ _ _ W R)].
+    destruct (walk_plan (plan_restricted h k (G (NNamed f' nt opt) cs) x) false H) as [H1 [y|]] eqn:Wp;
+      pose proof (walk_plan_add_wf _ _ _ _ W Wp) as W1; [inversion R; subst; exact W1|apply (IH _ _ _ _ _ W1 R)].
+Qed.
+
 Lemma dstep_wf d o d' ob : wfH (st_hooks (d_st d)) -> dstep d o = (d', ob) -> wfH (st_hooks (d_st d')).
 Proof.
-  intros W S. destruct o as [o|x f v|c v removed added fired]; cbn [dstep] in S.
+  intros W S. destruct o as [o|x f v|c v removed added fired|x f v]; cbn [dstep] in S.
   - destruct (step (d_heap d) (d_st d) o) as [s' ob'] eqn:St. inversion S; subst. cbn [d_st].
     apply (step_wf _ _ _ _ _ W St).
   - destruct (run_notifiers _ _ _ _ _ _ _ _) as [[H calls] e] eqn:R. inversion S; subst. cbn [d_st with_hooks st_hooks].
@@ -52,6 +75,8 @@ Proof.
     + destruct (run_notifiers _ _ _ _ _ _ _ _) as [[H calls] e] eqn:R. inversion S; subst. cbn [d_st with_hooks st_hooks].
       apply (run_notifiers_wf _ _ _ _ _ _ _ _ _ _ _ W R).
     + inversion S; subst. exact W.
+  - destruct (run_ta_notifiers _ _ _ _ _ _ _) as [[H calls] e] eqn:R. inversion S; subst. cbn [d_st with_hooks st_hooks].
+    apply (run_ta_notifiers_wf _ _ _ _ _ _ _ _ _ _ W R).
 Qed.
 
 Fixpoint drun (d : dstate) (ops : list dop) : list (dop * obs) * dstate :=
